@@ -56,6 +56,8 @@ type Prog struct {
 	e1    *e1Result
 	e3    *e3Result
 	e3b   *[]E3bIssue
+	propReports map[string]*Report
+	importing   bool
 	onceBody map[*ssa.Function]*ssa.Function
 	byName   map[string]*ssa.Function
 	single   map[*ssa.Function]bool
